@@ -164,7 +164,12 @@ public:
         if (iter + _limit > last)
             return false;
 
-        if (!base_type::subject.parse(iter, iter + _limit, ctx, rctx, attr))
+        const It scope_last = iter + _limit;
+        if (!base_type::subject.parse(iter, scope_last, ctx, rctx, attr))
+            return false;
+
+        // bytes left over inside the scope mean the packet is malformed
+        if (iter != scope_last)
             return false;
 
         first = iter;
